@@ -299,6 +299,7 @@ def explore(pid, tier, seed, modes, stats, budget_s=None):
         robs = run_harness(binary, cases, f"{pid}_{mode}")
         mres = run_driver(mode, cases, robs)
         for ci, c in enumerate(cases):
+            corr_seen = False
             for li, line in enumerate(c):
                 ro = robs[ci][li] if robs[ci] and li < len(robs[ci]) else None
                 if ro is None:
@@ -322,9 +323,11 @@ def explore(pid, tier, seed, modes, stats, budget_s=None):
                 if s.startswith("FAIL"):
                     problems.append(dict(kind="property", mode=mode, case=c, li=li, R=ro, M=m, S=s))
                     break
-                if m != "?" and m != ro:
+                if m != "?" and m != ro and not corr_seen:
+                    # remember the first disagreement of the case, but keep judging the following steps (the driver
+                    # re-synchronises to the implementation after every step): a later step may violate the property outright
                     problems.append(dict(kind="correspondence", mode=mode, case=c, li=li, R=ro, M=m, S=s))
-                    break
+                    corr_seen = True
     stats["distinct_nontrivial"] = len(distinct)
     stats["ops"] = ops
     stats["outcomes"] = outcomes
